@@ -33,7 +33,20 @@ FAMILIES = {
     "enum": (Color.red, Color.green, Color.blue),
     "falsy-mix": (1, 0, ""),
     "falsy-mix2": ("s", (), 0),
+    "bigints": (1000, 70000, -3000),
 }
+
+
+def fresh_equal(v):
+    """An equal value that is a different object where Python allows it (ints beyond the small-int cache, tuples and
+    strings built at run time): what a value loaded from a database looks like."""
+    if type(v) is int:
+        return int(str(v))
+    if type(v) is tuple:
+        return tuple(list(v))
+    if type(v) is str:
+        return "".join(list(v))
+    return v
 MODELS = ["none", "plain", "property", "class-default", "falsy-len", "custom-field"]
 IDS = ["s0", "s1", "s2"]
 NEXT = {"s0": "s1", "s1": "s2", "s2": "s0"}
@@ -113,6 +126,8 @@ def tasks(tier):
     for fam in fams:
         if quick:
             shapes = ["none", "property"] + (["falsy-len"] if fam in falsy else []) + (["plain", "class-default", "custom-field"] if fam == "ints" else [])
+            if fam == "bigints":
+                shapes = ["plain", "property"]
         else:
             shapes = MODELS
         for shape in shapes:
@@ -125,10 +140,10 @@ BUDGET = {
     "thorough": {"max_secs": 3600, "task_secs": 3000, "path_secs": 60},
 }
 BOUNDS = {
-    "quick": "3-state ring (go) with self (stay) and internal (stay on s2) transitions; state values from 8 families (default ids, ints incl. 0 and -1, "
+    "quick": "3-state ring (go) with self (stay) and internal (stay on s2) transitions; state values from 9 families (ints beyond the small-int cache, default ids, ints incl. 0 and -1, "
     "strings incl. '', tuples incl. (), enum members, two mixes of distinct falsy values); model shapes {default, plain attribute, property-backed with a "
     "write log, class-level default, falsy object defining __len__, custom state_field}; start_value {absent, each state's value, unmapped}; model empty or already holding any state's value; a script of 2 "
-    "operations (the second from a reduced menu) from {send go, send stay, write a valid value straight into the model, write a symbolic int / a pool value through the setter, send with a "
+    "operations (the second from a reduced menu) from {send go, send stay, write a valid value (an equal but freshly built object) straight into the model, write a symbolic int / a pool value through the setter, send with a "
     "callback that writes the model during `on` or `after`}; after every operation field, current_state, current_state_value, is_active of every state and "
     "model identity are compared with the expectation.",
     "thorough": "scripts of 3 operations, every family x model shape.",
@@ -172,7 +187,7 @@ def run(ctx, params):
     pre = ctx.choose(4, "prestored") if model is not None else 0  # the model already holds state #pre-1 (persistence)
     if pre:
         with ctx.notracing():
-            setattr(model, field, vals[pre - 1])
+            setattr(model, field, fresh_equal(vals[pre - 1]))
             del writes[:]
         if sv_choice >= 2 and params["reduced"] or sv_choice == 4:
             return
@@ -234,7 +249,9 @@ def run(ctx, params):
             history.append("stay")
         elif op == 2:
             j = (exp + 1) % 3 if small and k > 0 else ctx.choose(3, f"w{k}")
-            setattr(mdl, field, vals[j])
+            with ctx.notracing():
+                written = fresh_equal(vals[j])
+            setattr(mdl, field, written)
             exp = j
             ctx.cover("external-write-seen")
             history.append(f"model.{field}={vals[j]!r}")
